@@ -103,10 +103,57 @@ func vestGenesisCheck(x *Exec, toks []string) string {
 			return "skip" // the module account does not hold that much
 		}
 	}
+	// variant "dup": an owner listed a second time under the all-upper-case spelling of its address
+	// (a valid bech32 string, a different store key), with the module account funded for both records:
+	// after InitGenesis the module account must still be exactly backed by what is stored
+	dup := len(toks) > 2 && toks[2] == "dup"
+	if dup {
+		var extra sdk.Int = sdk.ZeroInt()
+		n := len(gs.AccountVestingPools)
+		for i := 0; i < n; i++ {
+			avp := gs.AccountVestingPools[i]
+			if avp == nil || avp.Owner != strings.ToLower(avp.Owner) || len(avp.VestingPools) == 0 {
+				continue
+			}
+			if _, err := sdk.AccAddressFromBech32(avp.Owner); err != nil {
+				continue
+			}
+			cp := vesttypes.AccountVestingPools{Owner: strings.ToUpper(avp.Owner)}
+			for _, p := range avp.VestingPools {
+				q := *p
+				cp.VestingPools = append(cp.VestingPools, &q)
+				extra = extra.Add(q.GetCurrentlyLocked())
+			}
+			gs.AccountVestingPools = append(gs.AccountVestingPools, &cp)
+			break
+		}
+		if extra.IsPositive() {
+			coins := sdk.NewCoins(sdk.NewCoin(denom, extra))
+			if err := app.BankKeeper.MintCoins(cc, mintertypes.ModuleName, coins); err != nil {
+				panic(err)
+			}
+			if err := hb.SendCoinsFromModuleToModule(cc, mintertypes.ModuleName, vesttypes.ModuleName, coins); err != nil {
+				panic(err)
+			}
+		}
+	}
 	res, _ := catch(func() error {
 		cfevesting.InitGenesis(cc, k, *gs, app.AccountKeeper, app.BankKeeper, app.StakingKeeper)
 		return nil
 	})
+	if dup && res == "ok" {
+		// the registered invariant on the state InitGenesis produced
+		locked := sdk.ZeroInt()
+		for _, avp := range k.GetAllAccountVestingPools(cc) {
+			for _, p := range avp.VestingPools {
+				locked = locked.Add(p.GetCurrentlyLocked())
+			}
+		}
+		bal := app.BankKeeper.GetBalance(cc, authtypes.NewModuleAddress(vesttypes.ModuleName), denom).Amount
+		if !bal.Equal(locked) {
+			x.hit("C05", "genesis-backing", "vesting-init-genesis-dup-owner", fmt.Sprintf("after InitGenesis the module account holds %s, the stored pools lock %s", bal, locked))
+		}
+	}
 	if delta.IsZero() != (res == "ok") {
 		x.hit("C05", "genesis-backing", "vesting-init-genesis", fmt.Sprintf("module balance off by %s: InitGenesis outcome %s", delta, res))
 	}
@@ -326,6 +373,7 @@ func genGenesis(g *Gen, n int) {
 		}
 		if !stop && (kind == "vest" || kind == "split") {
 			g.emit("g.vestgenesis %s", g.pick("0", "0", "1", "7", "1000000"))
+			g.emit("g.vestgenesis 0 dup")
 		}
 		g.emit("g.end")
 		g.count("scenario/" + kind)
